@@ -1,7 +1,7 @@
 SPECIFICATION Spec
 CONSTANTS LBits = 16
   Vals = {0,1,2,3,9,10,255,256,32767,32768,65534,65535,65536,65537,131071,131072,1000000,16777215,16777216,16777217,268435455,268435456,536870911,536870912,1073741823}
-  Smalls = {0,1,2,3,4,5,8,10,12,15,16,17,36,10000,32767}
+  Smalls = {0,1,2,3,4,5,8,10,12,15,16,17,36,10000,15625,32767}
   Radices = {2,8,10,16,36}
-INVARIANTS RoundTrip CmpOK AddOK SubOK MulOK ShiftOK BitsOK DigitsOK Pow10OK
+INVARIANTS RoundTrip CmpOK AddOK SubOK MulOK ShiftOK BitsOK DigitsOK Pow10OK MulBigOK
 CHECK_DEADLOCK FALSE
